@@ -31,18 +31,21 @@ def makeGlobPatterns (path : Str) : Except Err (List Str) :=
     let re := splitext escaped
     if re.2.isEmpty then .ok (Gen.patternsNoExt escaped) else .ok (Gen.patternsExt escaped re.1 re.2)
 
-/-- a directory entry as retention sees it: its path as glob returns it, `os.path.isfile`,
+/-- a directory entry as retention sees it: its path as glob returns it, its file type (links followed),
 `os.stat().st_mtime` -/
 structure Entry where
   name : Str
-  isFile : Bool
+  kind : Kind
   mtime : Int
   deriving DecidableEq, Repr
+
+/-- is the entry a regular file (possibly through symbolic links)? -/
+def Entry.isFile (e : Entry) : Bool := e.kind == .regular
 
 /-- `{file for pattern in patterns for file in glob.glob(pattern) if os.path.isfile(file)}` over a
 population with pairwise distinct names -/
 def selectLogs (patterns : List Str) (entries : List Entry) : List Entry :=
-  entries.filter (fun e => patterns.any (fun p => pathMatch p e.name) && e.isFile)
+  entries.filter (fun e => patterns.any (fun p => pathMatch p e.name) && Gen.retentionFilter e.kind)
 
 /-- `str <= str` of Python: lexicographic by code point -/
 def strLe : Str → Str → Bool
